@@ -1,4 +1,5 @@
 import FitProps.Go2LeanBasetype
+import FitProps.Go2LeanProtoMarshal
 /-!
 # C06 — tie of the base-type facts to the source by translation
 
@@ -41,5 +42,46 @@ theorem C06_go2lean_consts :
 theorem C06_go2lean_spec_field : (fitBaseTypes.map (fun p => p.1 &&& Go.basetype.BaseTypeNumMask)) = List.range 17 ∧
     ∀ p ∈ fitBaseTypes, ((p.1 &&& Go.basetype.EndianAbilityMask) == Go.basetype.EndianAbilityMask) = decide (p.2.1 > 1) :=
   bt_spec_field
+
+/-! the clamping of `typedef.Bool` (anything above 1 is the invalid value 255): proto/value.go `Bool`, proto/value_marshal.go
+case `TypeBool`, proto/value_unmarshal.go on a bool array (since /repo 5da5106), translated as blocks of unit `protomarshal`.
+PROPERTY THEOREMS (audited by ./check): C06_go2lean_bool_clamp, C06_go2lean_bool_marshal, C06_go2lean_bool_unmarshal -/
+
+theorem C06_go2lean_bool_clamp (v : Nat) :
+    mkBool v = .bool (Go.protomarshal.Bool_clamp v).num ∧ (Go.protomarshal.Bool_clamp v).num = clampBool v := pm_bool_clamp v
+
+theorem C06_go2lean_bool_marshal (b : List Nat) (val : Nat) (hv : val < 256) :
+    (Go.protomarshal.Value_MarshalAppend_bool b val).ret = some (b ++ [boolByte val]) := pm_bool_marshal b val hv
+
+theorem C06_go2lean_bool_unmarshal (bs vals : List Nat) (i : Nat) (hi : i < bs.length) :
+    Go.protomarshal.UnmarshalValue_boolElem bs (i : Int) vals =
+      some { vals := vals ++ [clampBool bs[i]], v := clampBool bs[i] } := pm_bool_unmarshal bs vals i hi
+
+/-! `Value.MarshalAppend`: the eight fixed-width scalar cases and the bool array (blocks of unit `protomarshal`).
+PROPERTY THEOREMS (audited by ./check): C06_go2lean_scalar_marshal, C06_go2lean_sliceBool_marshal -/
+
+theorem C06_go2lean_scalar_marshal (arch n : Nat) (b : List Nat) :
+    (Go.protomarshal.Value_MarshalAppend_int16 arch b n).ret = some (b ++ enc 2 arch n) ∧
+    (Go.protomarshal.Value_MarshalAppend_uint16 arch b n).ret = some (b ++ enc 2 arch n) ∧
+    (Go.protomarshal.Value_MarshalAppend_int32 arch b n).ret = some (b ++ enc 4 arch n) ∧
+    (Go.protomarshal.Value_MarshalAppend_uint32 arch b n).ret = some (b ++ enc 4 arch n) ∧
+    (Go.protomarshal.Value_MarshalAppend_float32 arch b n).ret = some (b ++ enc 4 arch n) ∧
+    (Go.protomarshal.Value_MarshalAppend_int64 arch b n).ret = some (b ++ enc 8 arch n) ∧
+    (Go.protomarshal.Value_MarshalAppend_uint64 arch b n).ret = some (b ++ enc 8 arch n) ∧
+    (Go.protomarshal.Value_MarshalAppend_float64 arch b n).ret = some (b ++ enc 8 arch n) := pm_scalar_marshal arch n b
+
+theorem C06_go2lean_sliceBool_marshal (b vals : List Nat) (hv : ∀ x ∈ vals, x < 256) :
+    Go.protomarshal.Value_MarshalAppend_sliceBool b vals =
+      some { b := b ++ vals.map boolByte, ret := some (b ++ vals.map boolByte) } := pm_sliceBool_marshal b vals hv
+
+/-! `Value.MarshalAppend`: the unsigned fixed-width array cases. PROPERTY THEOREMS (audited by ./check): C06_go2lean_sliceUint_marshal -/
+
+theorem C06_go2lean_sliceUint_marshal (arch : Nat) (b vals : List Nat) :
+    Go.protomarshal.Value_MarshalAppend_sliceUint16 arch b vals =
+      some { b := b ++ vals.flatMap (enc 2 arch), ret := some (b ++ vals.flatMap (enc 2 arch)) } ∧
+    Go.protomarshal.Value_MarshalAppend_sliceUint32 arch b vals =
+      some { b := b ++ vals.flatMap (enc 4 arch), ret := some (b ++ vals.flatMap (enc 4 arch)) } ∧
+    Go.protomarshal.Value_MarshalAppend_sliceUint64 arch b vals =
+      some { b := b ++ vals.flatMap (enc 8 arch), ret := some (b ++ vals.flatMap (enc 8 arch)) } := pm_sliceUint_marshal arch b vals
 
 end Fit.C06
